@@ -34,6 +34,7 @@ A_TEXT = {
     'norm': "scipy.stats.norm.cdf(x, loc, scale) = Phi((x-loc)/scale), pdf likewise, ppf = Phi^-1",
     'seqops': "np.concatenate / append / insert / slicing / fancy indexing / cumsum behave as the corresponding sequence operations",
     'quad': "scipy.integrate.quad has no accuracy contract (result uninterpreted)",
+    'inv': "np.linalg.inv of a 3x3 matrix returns adj(J)/det(J) (the unique inverse) for det != 0 and raises LinAlgError otherwise",
     'root': "scipy.optimize.root: result.success implies |fun(x)| <= solver tolerance (idealised to fun(x)=0); no convergence promise",
 }
 
@@ -638,6 +639,8 @@ def reduction(I, kind, x):
 
 
 def setitem(I, frame, target_expr, base, idx, val, lineno=None):
+    if hasattr(base, 'pv_setitem'):
+        return base.pv_setitem(idx, val)
     if isinstance(base, LocIndexer):
         mask, col = idx
         if not (isinstance(mask, SV) and mask.is_bool and isinstance(col, str)):
@@ -741,6 +744,8 @@ def bound(name, fn):
 
 
 def getattr_(I, base, attr, frame, lineno=None):
+    if hasattr(base, 'pv_getattr'):
+        return base.pv_getattr(attr)
     if isinstance(base, Obj):
         if attr in base.fields:
             return base.fields[attr]
@@ -1409,6 +1414,28 @@ def np_empty(I, n, dtype=None, **kw):
     return SArr(a, nt, elem, 'ndarray')
 
 
+def linalg_inv(I, m):
+    """assumed contract of np.linalg.inv for 3x3 matrices: the unique inverse adj(J)/det(J) for det != 0, LinAlgError otherwise"""
+    I.used_assumptions.add('inv')
+    rows = m.items
+    if len(rows) != 3 or any(not isinstance(r, PList) or len(r.items) != 3 for r in rows):
+        raise Unsupported("inv of non 3x3")
+    a = [[realish(lift(rows[i].items[j]).t) for j in range(3)] for i in range(3)]
+    det = (a[0][0] * (a[1][1] * a[2][2] - a[1][2] * a[2][1]) - a[0][1] * (a[1][0] * a[2][2] - a[1][2] * a[2][0])
+           + a[0][2] * (a[1][0] * a[2][1] - a[1][1] * a[2][0]))
+    if not I.decide(det != 0):
+        raise PyRaise('LinAlgError')
+
+    def cof(i, j):
+        r = [x for x in range(3) if x != i]
+        c = [x for x in range(3) if x != j]
+        minor = a[r[0]][c[0]] * a[r[1]][c[1]] - a[r[0]][c[1]] * a[r[1]][c[0]]
+        return minor if (i + j) % 2 == 0 else -minor
+    inv = [[cof(j, i) / det for j in range(3)] for i in range(3)]
+    I.inv_records.append({'det': det})
+    return PList([PList([SV(inv[i][j]) for j in range(3)], 'vec') for i in range(3)], 'vec')
+
+
 EIG = [z3.Function(f'eig{k}', *([z3.RealSort()] * 7)) for k in range(3)]
 
 
@@ -1847,7 +1874,8 @@ def make_libs(I):
     def L(fn):
         return Builtin(fn.__name__, lambda *a, **k: fn(I, *a, **k))
 
-    linalg = LibNS('np.linalg', {'eigvalsh': L(eigvalsh)})
+    linalg = LibNS('np.linalg', {'eigvalsh': L(eigvalsh), 'inv': L(linalg_inv), 'LinAlgError': Opaque(('exc', 'LinAlgError'))})
+    I.inv_records = []
     np_ = LibNS('np', {
         'asarray': L(np_asarray), 'array': L(np_array), 'fabs': L(np_abs), 'abs': L(np_abs), 'absolute': L(np_abs),
         'sign': L(np_sign), 'power': L(np_power), 'divide': L(np_divide), 'sqrt': L(np_sqrt), 'log10': L(np_log10), 'log': L(np_log),
